@@ -8,7 +8,7 @@ from collections import Counter
 from hypothesis import strategies as st
 
 from .. import molgen
-from ..core import hyp_run
+from ..core import hyp_run, direct_run
 from ..oracles import valence_ref
 
 ID = 'C16'
@@ -64,6 +64,7 @@ def shards(tier, seed):
     n = 400 if tier == 'quick' else 5000
     out = [dict(kind='transformer', shard=i, n=n) for i in range(10)]
     out += [dict(kind='reactor', shard=i, n=n // 2) for i in range(4)]
+    out.append(dict(kind='alkenes', n=4 if tier == 'quick' else 40))
     return out
 
 
@@ -87,7 +88,17 @@ def cage_hetero(draw):
     return {'k': 'graph', 'atoms': atoms, 'bonds': g['bonds'], 'stereo': []}
 
 
+# labelled tri- and tetrasubstituted double bonds that carry the group a template names on one of their carbons: the label has to be
+# carried through the patch although the neighbour order of the named carbon changes
+ALKENES = ['O/C(C)=C(/C)CC', 'O/C(C)=C(\\C)CC', 'Br/C(C)=C(/C)CC', 'Cl/C(C)=C/C', 'C/C(Br)=C(/C)Cl', 'CC/C(O)=C(\\C)/C=C/C',
+           'N/C(C)=C(/C)CC', 'OC(=O)/C(C)=C(/C)Br', 'C/C(O)=C1/CCCC1C', 'Br/C(=C(/C)CC)C1CC1', 'S/C(C)=C(/F)C', 'O/C(C)=C(/C)C(/C)=C(/C)O']
+ALKENE_TEMPLATES = [0, 2, 5, 6, 7, 11, 13, 17, 20, 21]
+
+
 def run_shard(shard, tier, seed):
+    if shard['kind'] == 'alkenes':
+        return direct_run(ID, [{'mol': {'k': 'smi', 's': s}, 'template': t, 'seed': seed * 7919 + 97 * i + 13 * t + j, 'graft': []}
+                               for i, s in enumerate(ALKENES) for t in ALKENE_TEMPLATES for j in range(shard['n'])], check_case)
     specs = molgen.mol_specs(max_atoms=10, corpus_w=3, curated_w=2, graph_w=6, literal_w=0, sym_w=2)
     if shard['kind'] == 'transformer':
         strat = st.fixed_dictionaries({'mol': st.one_of(specs, specs, specs, cage_hetero()), 'template': st.integers(0, len(TEMPLATES) - 1), 'seed': st.integers(0, 2 ** 31),
